@@ -308,6 +308,25 @@ def check(case, stats):
                              f'state {s.ante_trimming_status} history'
                              f' {h2.ante_trimming_status}'))
                 return out
+            # the same text with Windows line ends / without a final newline
+            # is the same history
+            for label, variant in (('crlf', text.replace('\n', '\r\n')),
+                                   ('no_final_newline', text.rstrip('\n'))):
+                try:
+                    hv = HandHistory.loads(variant, **(
+                        {'divmod': kwargs['divmod']} if 'divmod' in kwargs
+                        else {}))
+                except Exception as e:  # noqa: BLE001
+                    if not _is_engine_exception(e):
+                        raise
+                    out.append(V(ID, 'load_failed', label,
+                                 f'{label}: {type(e).__name__}: {e}'))
+                    return out
+                if not same_history(hv, h):
+                    out.append(V(ID, 'roundtrip_object_differs', label,
+                                 f'the text with {label} loads as a'
+                                 ' different history'))
+                    return out
             text2 = h2.dumps()
             if text2 != text:
                 out.append(V(ID, 'dumps_not_fixed_point', '',
